@@ -21,6 +21,11 @@
 (*   "call_node_not_restored" after evaluating a multi-line call's params  *)
 (*                            the bottom frame's node stays on the last    *)
 (*                            param instead of the {call}                  *)
+(*   "source_per_namespace"   the source text used to turn a position into *)
+(*                            a line is looked up by namespace: with a     *)
+(*                            second file ("twin.soy") declaring the entry *)
+(*                            template's namespace and added later, the    *)
+(*                            line is counted in the twin's text           *)
 (* TLC exports every case with its source lines and allowed lines; the     *)
 (* harness renders them with the real code.                                *)
 (***************************************************************************)
@@ -104,12 +109,28 @@ LibLines(d) ==
 \* line in lib.soy of the print that fails at the given depth
 LibFailLine(depth) == CASE depth = 1 -> 46 [] depth = 2 -> 57 [] OTHER -> 68
 
-Descs == {[w1 |-> a, w2 |-> b, f |-> f, depth |-> k, lead |-> n, shape |-> sh] :
-            a \in Wrappers, b \in Wrappers, f \in Fails, k \in Depths, n \in {0, 2}, sh \in CallShapes}
+\* a third file declaring the SAME namespace as the entry file, made of very
+\* short lines so that a byte offset of the entry file falls on a much later
+\* line of the twin; added to the bundle before or after the entry file
+Twins == {"none", "first", "last"}
+TwinLines == <<"{namespace e}">> \o [i \in 1..120 |-> "//"] \o <<"{template .tw}", "t", "{/template}">>
+
+RECURSIVE OffsetOfLine(_, _)
+\* number of bytes before the first byte of line n (lines are ASCII, joined by one LF)
+OffsetOfLine(lines, n) == IF n <= 1 THEN 0 ELSE OffsetOfLine(lines, n - 1) + Len(lines[n - 1]) + 1
+RECURSIVE LineOfOffset(_, _, _)
+\* 1 + number of LF before byte offset off, counted in another text
+LineOfOffset(lines, off, n) ==
+  IF n > Len(lines) THEN Len(lines) + 1
+  ELSE IF off <= Len(lines[n]) THEN n ELSE LineOfOffset(lines, off - Len(lines[n]) - 1, n + 1)
+
+Descs == {[w1 |-> a, w2 |-> b, f |-> f, depth |-> k, lead |-> n, shape |-> sh, twin |-> tw] :
+            a \in Wrappers, b \in Wrappers, f \in Fails, k \in Depths, n \in {0, 2}, sh \in CallShapes, tw \in Twins}
 Meaningful(d) == /\ (d.w1 = "none" => d.w2 = "none")
                  /\ (d.w1 = "msg" => d.w2 = "none")                      \* control flow is not allowed inside msg
                  /\ (d.depth > 0 => d.f = "print")
                  /\ (d.depth = 0 => d.shape = "plain")
+                 /\ (d.twin # "none" => d.lead = 0 /\ d.w2 = "none")
                  /\ ~(d.f = "pluralsubject" /\ "msg" \in {d.w1, d.w2})   \* no msg inside msg
                  /\ ~(d.f \in {"ifcond", "forlist", "switchsubject", "pluralsubject", "letvalue"} /\ "msg" \in {d.w1, d.w2})
 
@@ -136,6 +157,8 @@ Fail == /\ (phase = "atnode" /\ d.depth = 0) \/ phase = "incallee"
         /\ reported' = [file |-> IF "callee_file" \in Dev THEN frameFile ELSE "entry.soy",
                         line |-> IF "innermost_frame_line" \in Dev THEN frameLine
                                  ELSE IF "line_from_other_source" \in Dev /\ d.depth > 0 THEN LibFailLine(d.depth)
+                                 ELSE IF "source_per_namespace" \in Dev /\ d.twin = "last"
+                                   THEN LineOfOffset(TwinLines, OffsetOfLine(EntryLines(d), bottomLine), 1)
                                  ELSE bottomLine]
         /\ UNCHANGED <<d, bottomLine, frameFile, frameLine>>
 
@@ -149,7 +172,7 @@ PositionOK == phase = "failed" => (reported.file = "entry.soy" /\ reported.line 
 LayoutSeparates == LibFailLine(d.depth) \notin PathLines(d) /\ Len(EntryLines(d)) < 40
 
 EmitCase == phase = "failed" =>
-  PrintT(ToJson([d |-> d, entry |-> EntryLines(d), lib |-> LibLines(d),
+  PrintT(ToJson([d |-> d, entry |-> EntryLines(d), lib |-> LibLines(d), twin |-> TwinLines,
                  file |-> "entry.soy", lo |-> FirstBodyLine(d), hi |-> FailLast(d) + NWrap(d), node |-> NodeLine(d),
                  allowed |-> SetToSeq(AllowedLines(d))]))
 =============================================================================
